@@ -396,8 +396,8 @@ func (w *world) oracle() string {
 					return fmt.Sprintf("account %d: stale transaction nonce %d <= state nonce %d", v.acc, t.GetBody().GetNonce(), st.nonce)
 				}
 			}
-			// the offered run starts at state+1: demanded at settled points (see notify)
-			if w.settled && len(v.txs) > 0 && v.base.nonce != st.nonce {
+			// the offered run starts at state+1: after every processed notification and every other operation
+			if len(v.txs) > 0 && v.base.nonce != st.nonce {
 				return fmt.Sprintf("account %d: offered run starts from %d+1 but the state nonce is %d", v.acc, v.base.nonce, st.nonce)
 			}
 		}
@@ -517,7 +517,6 @@ func (w *world) replayPool(ops []string) (verdict string) {
 				w.mp.VerifInit(b.b)
 				w.best, w.settled = b, true
 			}
-			w.settled = w.settledAfter(b)
 			w.mp.VerifBlockArrival(b.b)
 			w.best = b
 		case "evict":
@@ -541,16 +540,6 @@ func (w *world) replayPool(ops []string) (verdict string) {
 	return ""
 }
 
-// settledAfter: does the notification of b make the pool re-check every account (the block extends or repeats the
-// pool's best block, or the chain id changes and the pool resets)? Otherwise only the accounts named in b are
-// re-checked (first block of a reorganisation) and "the run starts at state+1" is demanded again only after the
-// next notification.
-func (w *world) settledAfter(b *blk) bool {
-	if w.best == nil || b == w.best || b.parent == w.best || b.chain != w.best.chain {
-		return true
-	}
-	return false
-}
 
 // ---------------------------------------------------------------- pool operations
 
@@ -730,13 +719,12 @@ func (w *world) notify(b *blk, last bool, kind string) {
 	for _, v := range before {
 		nb += len(v.txs)
 	}
-	settled := w.settledAfter(b)
+	if w.best != nil && b != w.best && b.parent != w.best {
+		w.run.Count("block:parent-is-not-the-pools-best(first-block-of-a-reorganisation)")
+	}
 	res, _ := vh.Guard(func() string { return classify(w.mp.VerifBlockArrival(b.b)) })
 	w.best = b
-	w.settled = settled
-	if !settled {
-		w.run.Count("block:re-checks-named-accounts-only(parent-is-not-best)")
-	}
+	w.settled = true
 	after, _, _, _, _ := w.observe()
 	na := 0
 	for _, v := range after {
@@ -745,14 +733,6 @@ func (w *world) notify(b *blk, last bool, kind string) {
 	w.run.Count("block:" + kind)
 	if na < nb {
 		w.run.Count("block:removed-some")
-	}
-	if !settled {
-		for _, v := range after {
-			if v.base.nonce != b.st[v.acc].nonce {
-				w.run.Count("observed:reorg-intermediate-list-base-differs-from-state")
-				break
-			}
-		}
 	}
 	w.emit(op, res, na < nb || nb > 0)
 }
@@ -855,7 +835,7 @@ func (w *world) genGet() {
 				}
 				want++
 			}
-			if w.settled && len(g) > 0 && g[0].GetBody().GetNonce() != w.best.st[v.acc].nonce+1 {
+			if len(g) > 0 && g[0].GetBody().GetNonce() != w.best.st[v.acc].nonce+1 {
 				w.run.Fail(fmt.Sprintf("fetch: account %d run starts at %d, state nonce is %d", v.acc, g[0].GetBody().GetNonce(), w.best.st[v.acc].nonce),
 					map[string]interface{}{"session_ops": append([]string(nil), w.ops...)})
 			}
@@ -1017,10 +997,10 @@ func (w *world) namedSenderRemoval(a int, n, amount uint64, between int) {
 	w.emit(op, res, res == "ok")
 }
 
-// The first notification of a reorganisation, step by step (deterministic; an observation, see notes/C13.md):
-// setStateDB re-checks only the accounts named in the block when the block's parent is not the pool's best block.
-// Account 0 had nonce 1 executed on the abandoned branch and holds nonce 2 in the pool; after the notification of
-// the first new-branch block (state nonce of account 0 back to 0) its list is still based on nonce 1.
+// The first notification of a reorganisation, step by step (deterministic regression scenario for finding
+// C13-reorg-first-block-partial-recheck, repaired by af8aff9a): account 0 had nonce 1 executed on the abandoned
+// branch and holds nonce 2 in the pool; the first new-branch block does not name account 0 and its state nonce is
+// back to 0. The pool must rebase account 0's list (nonce 2 becomes an orphan) and accept nonce 1 again.
 func (w *world) reorgWindow() {
 	w.newSession()
 	w.run.Op("new", "ok | "+w.dump(), false)
@@ -1040,14 +1020,6 @@ func (w *world) reorgWindow() {
 	b1 := w.mkBlock(gen, []btx{{1, 2, w.mkTx(1, 2, 1, 3, 0)}}, nil, 1, nil)
 	b2 := w.mkBlock(b1, nil, nil, 1, nil)
 	w.notify(b1, false, "reorg-step0")
-	lists, _, _, _, _ := w.observe()
-	for _, v := range lists {
-		if v.acc == 0 && v.base.nonce > b1.st[0].nonce && v.ready > 0 {
-			w.run.Count("observed:reorg-window:fetch-offers-nonce-above-state+1")
-			w.run.Sample(fmt.Sprintf("reorg window: after `%s` account 0 is offered nonce %d, state nonce %d", w.ops[len(w.ops)-1],
-				v.txs[0].GetBody().GetNonce(), b1.st[0].nonce))
-		}
-	}
 	w.genGetPlain()
 	w.doPut(t1, 0, "window-resubmission") // the rolled-back transaction, valid in the new state
 	w.notify(b2, true, "reorg-step1")
